@@ -4361,6 +4361,10 @@ func (p *Parser) parseAlterSequence(pos token.Pos) *ast.AlterSequence {
 		restartCounterWith = p.parseRestartCounterWith()
 	}
 
+	if options == nil && skipRange == nil && noSkipRange == nil && restartCounterWith == nil {
+		p.panicfAtToken(&p.Token, "expected SET OPTIONS, SKIP RANGE, NO SKIP RANGE or RESTART COUNTER WITH, but: %s", p.Token.Kind)
+	}
+
 	return &ast.AlterSequence{
 		Alter:              pos,
 		Name:               name,
